@@ -99,7 +99,56 @@ func execOnceSeq(args []string) string {
 
 type onceRes struct{ k, seq int }
 
+// onceany: args = keys.  An OnceConstructor whose values are of type any; what the constructor returns
+// depends on the key modulo 5: an int, a string, nil, a func() any, a pointer.  Every Get of a key returns
+// that single result - in particular a function value comes back as the function, uncalled.
+func execOnceAny(args []string) string {
+	calls := 0
+	oc := syncutil.NewOnceConstructor(func(k int) any {
+		calls++
+		switch k % 5 {
+		case 0:
+			return k
+		case 1:
+			return "s" + I(k)
+		case 2:
+			return nil
+		case 3:
+			return func() any { return "called" }
+		}
+		return &onceRes{k: k}
+	})
+	var out []string
+	distinct := map[int]bool{}
+	for _, ks := range SplitList(args[0], ",") {
+		k := Atoi(ks)
+		distinct[k] = true
+		switch v := oc.Get(k).(type) {
+		case nil:
+			out = append(out, "nil")
+		case int:
+			out = append(out, "int"+I(v))
+		case string:
+			out = append(out, "str:"+v)
+		case func() any:
+			out = append(out, "func")
+		case *onceRes:
+			out = append(out, "ptr"+I(v.k))
+		default:
+			out = append(out, "other")
+		}
+	}
+	return strings.Join(out, ",") + " calls=" + I(calls) + "/" + I(len(distinct))
+}
+
 func genC17(g *G) {
+	for i := 0; i < 40; i++ {
+		var ks []string
+		for j := 1 + g.Rnd.IntN(8); j > 0; j-- {
+			ks = append(ks, I(g.Rnd.IntN(10)))
+		}
+		g.Emit("onceany", strings.Join(ks, ","))
+	}
 	// all op strings of length <= L over {a, c, r} for capacities 0..3
 	L := g.N(6, 8)
 	var rec func(cur string)
@@ -136,7 +185,7 @@ func genC17(g *G) {
 func init() {
 	properties["C17"] = &Property{
 		Gen:   genC17,
-		Exec:  map[string]Executor{"semaseq": execSemaSeq, "onceseq": execOnceSeq},
+		Exec:  map[string]Executor{"semaseq": execSemaSeq, "onceseq": execOnceSeq, "onceany": execOnceAny},
 		Class: func(fn string, args []string, obs string) string { return fn },
 		Rule:  "semaseq: sequential histories of Acquire (3 ms timeout context), Acquire (already cancelled context) and Release over capacities 0..3, judged against the model's enabled sets (a cancelled context with a free slot may give either outcome: Go's select). onceseq: sequential Get calls over 4 keys with a counting constructor, compared with the model run under the sequential schedule (which construction produced each result; constructor calls per key). The schedules themselves are explored by the -race drivers 'once' and 'sema' of cmd/conc. distinct=arguments",
 	}
